@@ -13,6 +13,7 @@ void harness(void)
     xv_ghost_havoc();
     xv_addrpub_env_havoc();
     xv_hb = nondet_long(); xv_g_b0 = nondet_uchar();
+    XV_KEEP(xcm_dns_is_valid_name)
     const char *hs; struct xcm_addr_host *h;
     int opton = xv_pton_calls, odns = xv_regexec_calls;
     int rv = host_parse(hs, h);
